@@ -108,6 +108,125 @@ func findFunc(f *ast.File, name, recv string) *ast.FuncDecl {
 	return nil
 }
 
+// stringLitCtx is stringLit that also resolves identifiers naming package-level string constants
+// (and []byte(Ident) conversions of them).
+func stringLitCtx(e ast.Expr, c *ctx) (string, bool) {
+	if s, ok := stringLit(e); ok {
+		return s, true
+	}
+	switch v := e.(type) {
+	case *ast.Ident:
+		for _, rel := range append([]string{""}, c.files...) {
+			var f *ast.File
+			if rel == "" {
+				f = c.file
+			} else {
+				f = parseFile(c.repo, rel)
+			}
+			if val := findValue(f, v.Name); val != nil {
+				if s, ok := stringLit(val); ok {
+					return s, true
+				}
+			}
+		}
+	case *ast.ParenExpr:
+		return stringLitCtx(v.X, c)
+	case *ast.CallExpr:
+		if len(v.Args) == 1 {
+			if at, ok := v.Fun.(*ast.ArrayType); ok && at.Len == nil {
+				return stringLitCtx(v.Args[0], c)
+			}
+		}
+	case *ast.BinaryExpr:
+		if v.Op == token.ADD {
+			a, ok1 := stringLitCtx(v.X, c)
+			b, ok2 := stringLitCtx(v.Y, c)
+			if ok1 && ok2 {
+				return a + b, true
+			}
+		}
+	}
+	return "", false
+}
+
+// funcLits collects, in source order, the integer constants (literals and constant expressions that are direct
+// call arguments, slice bounds or comparison operands) and the string constants (literals, and identifiers naming
+// package-level string constants used as call arguments or comparison operands) inside a function body.
+func funcLits(fd *ast.FuncDecl, c *ctx) (ints []string, strs []string) {
+	seen := map[ast.Node]bool{}
+	var visit func(n ast.Node) bool
+	visit = func(n ast.Node) bool {
+		switch v := n.(type) {
+		case *ast.BasicLit:
+			if seen[v] {
+				return false
+			}
+			seen[v] = true
+			switch v.Kind {
+			case token.INT, token.CHAR:
+				z, _ := c.intExpr(v)
+				ints = append(ints, z+"%Z")
+			case token.STRING:
+				if s, ok := stringLit(v); ok {
+					strs = append(strs, coqBytes([]byte(s)))
+				}
+			}
+			return false
+		case *ast.CallExpr:
+			ast.Inspect(v.Fun, visit)
+			for _, a := range v.Args {
+				if id, ok := a.(*ast.Ident); ok {
+					if s, ok := stringLitCtx(id, c); ok {
+						strs = append(strs, coqBytes([]byte(s)))
+						continue
+					}
+				}
+				if be, ok := a.(*ast.BinaryExpr); ok && constIntExpr(be) {
+					z, _ := c.intExpr(be)
+					ints = append(ints, z+"%Z")
+					continue
+				}
+				ast.Inspect(a, visit)
+			}
+			return false
+		case *ast.BinaryExpr:
+			if v.Op == token.EQL || v.Op == token.NEQ {
+				for _, side := range []ast.Expr{v.X, v.Y} {
+					if id, ok := side.(*ast.Ident); ok {
+						if s, ok := stringLitCtx(id, c); ok {
+							strs = append(strs, coqBytes([]byte(s)))
+							continue
+						}
+						if c.isPkgConst(id.Name) {
+							z, _ := c.intExpr(id)
+							ints = append(ints, z+"%Z")
+							continue
+						}
+					}
+					ast.Inspect(side, visit)
+				}
+				return false
+			}
+		}
+		return true
+	}
+	ast.Inspect(fd.Body, visit)
+	return
+}
+
+// constIntExpr: an arithmetic expression built from integer literals only (e.g. 8*1024, 1<<20)
+func constIntExpr(e ast.Expr) bool {
+	switch v := e.(type) {
+	case *ast.BasicLit:
+		return v.Kind == token.INT || v.Kind == token.CHAR
+	case *ast.ParenExpr:
+		return constIntExpr(v.X)
+	case *ast.BinaryExpr:
+		return constIntExpr(v.X) && constIntExpr(v.Y)
+	}
+	return false
+}
+
 func coqBytes(b []byte) string {
 	if len(b) == 0 {
 		return "[]"
@@ -165,6 +284,35 @@ type ctx struct {
 	file  *ast.File
 	files []string // other files of the package to resolve identifiers in
 	depth int
+}
+
+// isPkgConst: name is declared by a package-level const declaration with an initialiser (or iota group)
+func (c *ctx) isPkgConst(name string) bool {
+	for _, rel := range append([]string{""}, c.files...) {
+		var f *ast.File
+		if rel == "" {
+			f = c.file
+		} else {
+			f = parseFile(c.repo, rel)
+		}
+		for _, d := range f.Decls {
+			gd, ok := d.(*ast.GenDecl)
+			if !ok || gd.Tok != token.CONST {
+				continue
+			}
+			for _, sp := range gd.Specs {
+				vs := sp.(*ast.ValueSpec)
+				for i, n := range vs.Names {
+					if n.Name == name && i < len(vs.Values) {
+						if _, isStr := stringLit(vs.Values[i]); !isStr {
+							return true
+						}
+					}
+				}
+			}
+		}
+	}
+	return false
 }
 
 func (c *ctx) intExpr(e ast.Expr) (string, bool) {
@@ -423,7 +571,7 @@ func main() {
 				if v == nil {
 					die("%s: %s %s not found in %s", id, it.Kind, it.Name, it.File)
 				}
-				s, ok := stringLit(v)
+				s, ok := stringLitCtx(v, c)
 				if !ok {
 					die("%s: %s in %s is not a string/[]byte literal", id, it.Name, it.File)
 				}
@@ -447,6 +595,35 @@ func main() {
 					die("%s: function %s not found in %s", id, it.Name, it.File)
 				}
 				fmt.Fprintf(&sb, "(* %s: case labels of %s (switch #%d, ret=%q) *)\nDefinition %s %s.\n\n", it.File, it.Name, it.Nth, it.Ret, name, caseSet(fd, it, c))
+			case "funclits":
+				fd := findFunc(f, it.Name, it.Recv)
+				if fd == nil {
+					die("%s: function %s not found in %s", id, it.Name, it.File)
+				}
+				ints, strs := funcLits(fd, c)
+				fmt.Fprintf(&sb, "(* %s: constants inside %s%s, in source order *)\nDefinition %s_ints : list Z :=\n  [%s].\nDefinition %s_strs : list (list N) :=\n  [%s].\n\n",
+					it.File, it.Recv, it.Name, name, strings.Join(ints, "; "), name, strings.Join(strs, ";\n   "))
+			case "maplit":
+				v := findValue(f, it.Name)
+				cl, ok := v.(*ast.CompositeLit)
+				if v == nil || !ok {
+					die("%s: %s in %s is not a composite literal", id, it.Name, it.File)
+				}
+				var pairs []string
+				for _, el := range cl.Elts {
+					kv, ok := el.(*ast.KeyValueExpr)
+					if !ok {
+						die("%s: %s has a non key-value element", id, it.Name)
+					}
+					ks, ok1 := stringLitCtx(kv.Key, c)
+					vs, ok2 := stringLitCtx(kv.Value, c)
+					if !ok1 || !ok2 {
+						die("%s: %s has a non-constant string entry", id, it.Name)
+					}
+					pairs = append(pairs, "("+coqBytes([]byte(ks))+", "+coqBytes([]byte(vs))+")")
+				}
+				sort.Strings(pairs)
+				fmt.Fprintf(&sb, "(* %s:%s (map literal, entries sorted) *)\nDefinition %s : list (list N * list N) :=\n  [%s].\n\n", it.File, it.Name, name, strings.Join(pairs, ";\n   "))
 			case "funchash":
 				fd := findFunc(f, it.Name, it.Recv)
 				if fd == nil {
